@@ -207,6 +207,7 @@ func init() {
 				for v := 0; v < 2; v++ {
 					attestCase(c, "bind.short.fido-u2f", "fido-u2f", []string{"u2f.credWiderCurve"}, v == 1)
 					attestCase(c, "bind.short.fido-u2f", "fido-u2f", []string{"u2f.coordOversize"}, v == 1)
+					attestCase(c, "bind.short.fido-u2f", "fido-u2f", []string{"u2f.dupCoordinates"}, v == 1)
 				}
 				{
 					// the same shown as a bit flip: the statement made for one key, presented with the last bit of y changed
